@@ -73,7 +73,7 @@ PROPS = {
                 "intermediaries, each simulated by wire renaming and by registry restriction. Non-trivial = the unknown set contains at least one family of "
                 "the library itself (a type with a custom encoder). Distinct = hash of the case JSON.",
         "assumptions": ["an unknowing process is a process whose registries lack the type keys (hook) or that sees other names (renaming); both must agree"],
-        "parts": [rapid("passthrough", "TestProp", 6000, 120000)],
+        "parts": [rapid("passthrough", "TestProp", 6000, 120000), rapid("wire-variations", "TestVariations", 6000, 120000)],
     },
     "C08": {
         "pkg": "c08",
@@ -285,7 +285,7 @@ PROPS = {
         "rule": "exhaustive: 11 senders x 11 second senders x 12 receivers, and 11 senders x 12 intermediaries x 12 receivers; histories: rapid draws two senders and "
                 "1-6 hop steps (hop A, hop B, hop both) through drawn versions. Non-trivial = history of at least 3 steps. Distinct = hash of the history.",
         "assumptions": ["a registry image faithfully stands for a code version"],
-        "parts": [plain("exhaustive", "TestExhaustive"), rapid("histories", "TestProp", 8000, 160000), rapid("builtin-rename", "TestBuiltinRename", 2000, 40000)],
+        "parts": [plain("exhaustive", "TestExhaustive"), rapid("histories", "TestProp", 8000, 160000), rapid("builtin-rename", "TestBuiltinRename", 2000, 40000), plain("keys-and-moves", "TestKeysAndMoves")],
     },
     "C09": {
         "pkg": "c09",
@@ -303,7 +303,7 @@ PROPS = {
         "rule": "verbs: non-trivial = a flag/width/precision combination on a chain of at least 3 layers; verbose-structure: non-trivial = at least 5 entries, or at "
                 "least 3 with a multi-cause node; golden-corpus: every corpus file, exhaustive. Distinct = hash of the case JSON.",
         "assumptions": ["Go 1.23 fmt semantics for strings", "the vetted golden files of the repository are correct"],
-        "parts": [rapid("verbs", "TestVerbs", 24000, 480000), rapid("verbose-structure", "TestVerbose", 8000, 160000), plain("golden-corpus", "TestCorpus")],
+        "parts": [rapid("verbs", "TestVerbs", 24000, 480000), rapid("verbose-structure", "TestVerbose", 8000, 160000), plain("golden-corpus", "TestCorpus"), plain("nil-formattable", "TestNilFormattable")],
     },
     "C19": {
         "pkg": "c19",
